@@ -111,7 +111,19 @@ class IgnoreModel:
 
 # ------------------------------------------------------------------ performing one operation (SUT and reference share this)
 
+_NS_CACHE = {}
+
+
 def _ns(a):
+    """The arguments object of a call.  Like the web server (settings['merge_args']), a long-running process keeps one
+    object per distinct set of arguments and hands it to every later call; a fresh process builds it anew."""
+    key = json.dumps(a, sort_keys=True)
+    if key not in _NS_CACHE:
+        _NS_CACHE[key] = _ns_new(a)
+    return _NS_CACHE[key]
+
+
+def _ns_new(a):
     return argparse.Namespace(merge_strategy=a.get("merge_strategy", "inline"), input_strategy=a.get("input_strategy"),
                               output_strategy=a.get("output_strategy"), ignore_transients=a.get("ignore_transients", True),
                               log_level="INFO")
@@ -148,15 +160,17 @@ def perform(op):
     nbs = [op[k] for k in ("a", "b", "base", "local", "remote") if k in op]
     known = _collect_ids(nbs)
     try:
+        # library callers pass NotebookNodes (read with nbformat) or the plain dicts json.load gave them
+        load = copy.deepcopy if op.get("plain") else (lambda nb: nbformat.from_dict(copy.deepcopy(nb)))
         if op["op"] == "diff":
-            a, b = nbformat.from_dict(copy.deepcopy(op["a"])), nbformat.from_dict(copy.deepcopy(op["b"]))
+            a, b = load(op["a"]), load(op["b"])
             val = nbdime.diff_notebooks(a, b)
         elif op["op"] == "merge":
-            b, l, r = (nbformat.from_dict(copy.deepcopy(op[k])) for k in ("base", "local", "remote"))
+            b, l, r = (load(op[k]) for k in ("base", "local", "remote"))
             merged, decisions = merge_notebooks(b, l, r, _ns(op.get("args", {})))
             val = {"merged": merged, "decisions": decisions}
         elif op["op"] == "decide":
-            b, l, r = (nbformat.from_dict(copy.deepcopy(op[k])) for k in ("base", "local", "remote"))
+            b, l, r = (load(op[k]) for k in ("base", "local", "remote"))
             val = decide_notebook_merge(b, l, r, _ns(dict(op.get("args", {}), merge_strategy="mergetool")))
         else:
             raise HarnessError("not a compared op: %r" % op["op"])
@@ -268,7 +282,7 @@ def generate(rng, index, cfg):
     if swarm["long_p"]:
         # long outputs are only interesting if they survive into the edited copies: keep payloads, change counts,
         # metadata or just the tail of the text
-        swarm["edit_kinds"] = ["outtail", "outmeta", "outmeta", "src", "dupedit"]
+        swarm["edit_kinds"] = ["outtail", "outmeta", "outlines", "outlines", "src", "dupedit"]
         swarm["max_cells"] = max(swarm["max_cells"], 2)
     try:
         pool = _pool(rng, swarm)
@@ -313,6 +327,8 @@ def generate(rng, index, cfg):
         if issued and rng.random() < swarm.get("p_repeat", 0.0):
             return copy.deepcopy(rng.choice(issued))      # the same call again, later in the history
         op = _compared()
+        if rng.random() < 0.12:
+            op["plain"] = True
         issued.append(op)
         return op
 
